@@ -14,6 +14,7 @@ package filelog
 //@   invariant loop 1: 0 <= pos && pos <= int64(len(data)) && len(data) > 0
 //@   invariant loop 1: forall i int :: 0 <= i && i < len(msgs) ==> within(msgs[i].Data, data)
 //@   assert at "msg := storage.LogMessage{EntryType: entryType, Data: databuf}": within(databuf, data)
+//@   assert at "flogs.files[k] = &fileLog{File: f2}": appendmode(f2)
 
 //@ func fileLogs.StreamAll
 //@   prop C04 C20
@@ -21,5 +22,15 @@ package filelog
 //@   modifies *
 //@   invariant loop 1: 0 <= pos && pos <= int64(len(data)) && len(data) > 0
 //@   assert at "ch <- storage.LogMessage{EntryType: entryType, Data: databuf}": within(databuf, data)
+//@   assert at "flogs.files[k] = &fileLog{File: f2}": appendmode(f2)
 
 // fileLogs.readEntireVersion carries the same parsing loop but is dead code (never called): not under contract.
+
+// Every descriptor registered for writing a log is opened in append mode: a record is written at the
+// end of the file even when a reader closed and re-opened the log in between (C04: an acknowledged
+// record is never overwritten by a later one).
+//@ func fileLogs.getWriteLog
+//@   prop C04
+//@   requires flogs != nil && flogs.files != nil
+//@   modifies *
+//@   assert at "fl = &fileLog{File: f}": appendmode(f)
